@@ -979,6 +979,7 @@ def run_rules(E, M, tables, tier="quick"):
         for sl in e["slots"]:
             inst_exc[(e["reader"], sl)] = e
     used_exc = set()
+    witness_ok = {}
     # witnesses of instance-level exceptions
     for e in exc.get("instance_level", []):
         rj = next((j for j in M.jobs.values() if j["self"] == e["reader"]), None)
@@ -994,6 +995,7 @@ def run_rules(E, M, tables, tier="quick"):
             want_trig = set(e["witness"].get("rewrite_triggers", []))
             ok = not missing and trig == want_trig
             why = f"missing deps {missing}; triggers {sorted(trig)} (expected {sorted(want_trig)})"
+        witness_ok[e["reader"]] = ok
         obl.append({"rule": "R2-witness", "inst": f"instance-level exception {e['reader']} x {e['slots']}", "ok": ok})
         if not ok:
             add("R2-witness", f"R2w|{e['reader']}|instance", f"audited instance-level exception for {e['reader']} lost its witness: {why}", e["reader"])
@@ -1169,6 +1171,12 @@ def run_rules(E, M, tables, tier="quick"):
                 for p in [k for k, j in G.jobs.items() if sk in j["writes"]]:
                     ok = p in sprod or any(G.before(p, s) for s in sprod)
                     # writers that run later and rewrite the slot make the main-thread read racy unless it is the trigger itself
+                    if not ok:
+                        k8 = f"R8|{sk[0]}.{sk[1]}|{fmt_id(trig)}|{G.jobs[p]['self']}"
+                        e8 = next((e for e in exc.get("main_thread_reads", []) if e["key"] == k8), None)
+                        if e8 and e8.get("shares_witness_with") in witness_ok and witness_ok[e8["shares_witness_with"]]:
+                            obl.append({"rule": "R8", "inst": f"[{fe}] main-thread {t['op']} of {sk[0]}.{sk[1]} under {fmt_id(trig)} vs writer {G.jobs[p]['self']} (audited exception, witness checked)", "ok": True})
+                            continue
                     obl.append({"rule": "R8", "inst": f"[{fe}] main-thread {t['op']} of {sk[0]}.{sk[1]} under {fmt_id(trig)} vs writer {G.jobs[p]['self']}", "ok": ok})
                     if not ok:
                         add("R8", f"R8|{sk[0]}.{sk[1]}|{fmt_id(trig)}|{G.jobs[p]['self']}",
